@@ -173,6 +173,78 @@ func coqTree(e excellent.Expression, d int, ti *treeInfo) string {
 	panic(fmt.Sprintf("unknown node %T", e))
 }
 
+// children of a node, in source order
+func children(e excellent.Expression) []excellent.Expression {
+	switch n := e.(type) {
+	case *excellent.DotLookup:
+		return []excellent.Expression{n.Container}
+	case *excellent.ArrayLookup:
+		return []excellent.Expression{n.Container, n.Lookup}
+	case *excellent.FunctionCall:
+		return append([]excellent.Expression{n.Func}, n.Params...)
+	case *excellent.AnonFunction:
+		return []excellent.Expression{n.Body}
+	case *excellent.Concatenation:
+		return []excellent.Expression{n.Exp1, n.Exp2}
+	case *excellent.Addition:
+		return []excellent.Expression{n.Exp1, n.Exp2}
+	case *excellent.Subtraction:
+		return []excellent.Expression{n.Exp1, n.Exp2}
+	case *excellent.Multiplication:
+		return []excellent.Expression{n.Exp1, n.Exp2}
+	case *excellent.Division:
+		return []excellent.Expression{n.Exp1, n.Exp2}
+	case *excellent.Exponent:
+		return []excellent.Expression{n.Expression, n.Exponent}
+	case *excellent.Equality:
+		return []excellent.Expression{n.Exp1, n.Exp2}
+	case *excellent.InEquality:
+		return []excellent.Expression{n.Exp1, n.Exp2}
+	case *excellent.LessThan:
+		return []excellent.Expression{n.Exp1, n.Exp2}
+	case *excellent.LessThanOrEqual:
+		return []excellent.Expression{n.Exp1, n.Exp2}
+	case *excellent.GreaterThan:
+		return []excellent.Expression{n.Exp1, n.Exp2}
+	case *excellent.GreaterThanOrEqual:
+		return []excellent.Expression{n.Exp1, n.Exp2}
+	case *excellent.Negation:
+		return []excellent.Expression{n.Exp}
+	case *excellent.Parentheses:
+		return []excellent.Expression{n.Exp}
+	}
+	return nil
+}
+
+// the statement of the rename clause: the names of the context references after renaming `from` to `to` — a
+// reference inside an anonymous function with a parameter named like `from` is a reference to that parameter, not
+// to the context, and keeps its name.  (lower-cased names; sawBound reports whether such a bound reference exists)
+func expectedRefs(e excellent.Expression, from, to string, bound bool, sawBound *bool) []string {
+	var out []string
+	if ref, ok := e.(*excellent.ContextReference); ok {
+		name := strings.ToLower(ref.Name)
+		if strings.EqualFold(ref.Name, from) {
+			if bound {
+				*sawBound = true
+			} else {
+				name = strings.ToLower(to)
+			}
+		}
+		return []string{name}
+	}
+	if fn, ok := e.(*excellent.AnonFunction); ok {
+		for _, a := range fn.Args {
+			if strings.EqualFold(a, from) {
+				bound = true
+			}
+		}
+	}
+	for _, c := range children(e) {
+		out = append(out, expectedRefs(c, from, to, bound, sawBound)...)
+	}
+	return out
+}
+
 func rootType(e excellent.Expression) string {
 	return strings.TrimPrefix(fmt.Sprintf("%T", e), "*excellent.")
 }
@@ -690,6 +762,13 @@ func main() {
 							seen[n.Name] = true
 							fold = append(fold, n.Name)
 						}
+					case *excellent.AnonFunction:
+						for _, a := range n.Args {
+							if mode == 2 && strings.EqualFold(a, from) && !seen[a] {
+								seen[a] = true
+								fold = append(fold, a)
+							}
+						}
 					}
 				})
 			}
@@ -955,18 +1034,18 @@ func main() {
 		}
 
 		// R3
-		from := hx.Pick(rt, []string{"foo", "bar", "contact", "x"})
+		from := hx.Pick(rt, []string{"foo", "bar", "contact", "x", "item"})
 		to := "zz9"
-		bound := false
+		toInUse := false
 		for _, g := range used {
 			for _, a := range g.ti.lambdaArgs {
-				if strings.EqualFold(a, from) || strings.EqualFold(a, to) {
-					bound = true
+				if strings.EqualFold(a, to) {
+					toInUse = true
 				}
 			}
 			for _, n := range g.ti.names {
 				if strings.EqualFold(n, to) {
-					bound = true
+					toInUse = true
 				}
 			}
 		}
@@ -984,49 +1063,50 @@ func main() {
 			res.Dist("template:rename-error")
 			continue
 		}
-		// exactly the references named `from` changed: compare the reference lists token by token
-		refsOf := func(t string) ([]string, bool) {
-			var refs []string
-			ok := true
-			excellent.VisitTemplate(t, append([]string{to}, ctxKeys...), false, func(tt excellent.XTokenType, tok string) error {
-				if tt == excellent.BODY {
-					return nil
-				}
-				p, err := excellent.Parse(tok, nil)
-				if err != nil {
-					ok = false
-					return nil
-				}
+		// exactly the context references named `from` changed: compare the reference lists token by token with
+		// what the statement prescribes
+		sawBound := false
+		var want, got []string
+		okRefs := true
+		excellent.VisitTemplate(tpl, ctxKeys, false, func(tt excellent.XTokenType, tok string) error {
+			if tt == excellent.BODY {
+				return nil
+			}
+			if p, err := excellent.Parse(tok, nil); err == nil {
+				want = append(want, expectedRefs(p, from, to, false, &sawBound)...)
+			} else {
+				okRefs = false
+			}
+			return nil
+		})
+		excellent.VisitTemplate(out2, append([]string{to}, ctxKeys...), false, func(tt excellent.XTokenType, tok string) error {
+			if tt == excellent.BODY {
+				return nil
+			}
+			if p, err := excellent.Parse(tok, nil); err == nil {
 				p.Visit(func(e excellent.Expression) {
 					if ref, is := e.(*excellent.ContextReference); is {
-						refs = append(refs, strings.ToLower(ref.Name))
+						got = append(got, strings.ToLower(ref.Name))
 					}
 				})
-				return nil
-			})
-			return refs, ok
-		}
-		before, okb := refsOf(tpl)
-		after, oka := refsOf(out2)
-		if okb && oka {
-			good := len(before) == len(after)
-			for j := 0; good && j < len(before); j++ {
-				want := before[j]
-				if want == from {
-					want = to
-				}
-				if after[j] != want {
-					good = false
-				}
+			} else {
+				okRefs = false
 			}
-			if !good {
-				res.Fail("rename:references-not-exactly-renamed", map[string]any{"template": tpl, "rewritten": out2, "from": from, "to": to},
-					fmt.Sprintf("references before %v, after %v", before, after))
-				continue
+			return nil
+		})
+		renameClass := func(c string) string {
+			if sawBound {
+				return "rename:lambda-parameter-captured"
 			}
+			return c
 		}
-		if bound {
-			res.Dist("template:rename-eval-skipped(lambda-bound-or-to-in-use)")
+		if okRefs && strings.Join(want, "\x00") != strings.Join(got, "\x00") {
+			res.Fail(renameClass("rename:references-not-exactly-renamed"), map[string]any{"template": tpl, "rewritten": out2, "from": from, "to": to},
+				fmt.Sprintf("references after the rename are %v, the statement prescribes %v", got, want))
+			continue
+		}
+		if toInUse {
+			res.Dist("template:rename-eval-skipped(to-in-use)")
 			continue
 		}
 		for k := 0; k < 3; k++ {
@@ -1045,7 +1125,7 @@ func main() {
 				continue
 			}
 			if a != b || ae != be {
-				res.Fail("rename:value-changed", map[string]any{"template": tpl, "rewritten": out2, "from": from, "to": to, "context": types.NewXObject(ctx).Describe()},
+				res.Fail(renameClass("rename:value-changed"), map[string]any{"template": tpl, "rewritten": out2, "from": from, "to": to, "context": types.NewXObject(ctx).Describe()},
 					fmt.Sprintf("Template(%q) = %q err=%v; renamed %q in the renamed context = %q err=%v", tpl, a, ae, out2, b, be))
 				break
 			}
